@@ -12,6 +12,8 @@ def _explore(name, views, depth, alphabet="full"):
 
 
 _LONGTEXT = dict(name="range-content-ops-long-text", driver="c14_viewx", extra_flags=_FLAGS, args=["--space", "longtext"])
+_IDTABLE4 = dict(name="id-table-forced-collisions-depth4", driver="c14_viewx", extra_flags=_FLAGS, args=["--space", "idtable", "--depth", 4])
+_IDTABLE5 = dict(name="id-table-forced-collisions-depth5", driver="c14_viewx", extra_flags=_FLAGS, args=["--space", "idtable", "--depth", 5])
 _WITNESSES = dict(name="known-defect-witnesses", driver="c14_viewx", extra_flags=_FLAGS, args=["--space", "witnesses"])
 
 
@@ -43,7 +45,7 @@ def _coverage(rs):
             "walker_probe_moves": _sum(ex, "probe_walker_moved"), "walker_results_not_compared": _sum(ex, "walker_adopted") + _sum(ex, "probe_walker_outside_root"),
             "taglist_probes_nonempty": _sum(ex, "probe_taglist_nonempty"), "childnodes_probes": _sum(ex, "probe_childNodes"),
             "attrmap_probes_nonempty": _sum(ex, "probe_attrmap_nonempty"), "id_lookup_hits": _sum(ex, "id_lookup_hit"),
-            "id_lookup_null": _sum(ex, "id_lookup_null"), "xpath_snapshot_probes": _sum(ex, "probe_xpath"),
+            "id_lookup_null": _sum(ex, "id_lookup_null"), "id_table_collision_histories": _sum(rs, "idtable_histories"), "id_table_lookups": _sum(rs, "id_lookups"), "xpath_snapshot_probes": _sum(ex, "probe_xpath"),
             "range_probes": _sum(ex, "probe_range"), "self_loops": _sum(ex, "transitions_selfloop"),
             "exception_outcomes": {k[4:]: sum(r.get("counters", {}).get(k, 0) for r in ex)
                                    for k in sorted(set(k for r in ex for k in r.get("counters", {}) if k.startswith("exc:")))},
@@ -78,7 +80,10 @@ SPEC = dict(
          "(keep_traversal(): every NodeIterator/TreeWalker configuration, nextNode/previousNode and the seven walker moves, every removeChild, four "
          "re-insertions) to depth 6 (quick) / 8 (thorough): positions such as 'last movement was previousNode() and the reference node is the tail of the "
          "iteration' need creation + n x nextNode + previousNode + removal and are out of reach of depth 3/4.  distinct_nontrivial = distinct states (by key) "
-         "with at least one live view.  The space 'range-content-ops-long-text' runs cloneContents / extractContents / deleteContents on ranges that start or end inside one Text node of "
+         "with at least one live view.  The space 'id-table-forced-collisions' runs every history of <= 4 (thorough 5) operations {give element i its ID attribute, remove it, re-value it} over five "
+         "elements whose ID strings are chosen with the public XMLString::hash so that they are FORCED to collide in the document's 997-slot double-hashing ID table (two on one "
+         "probe sequence, one on their second probe, one on the third, one unrelated, one spare), with getElementById of every string compared after every step.  The space "
+         "'range-content-ops-long-text' runs cloneContents / extractContents / deleteContents on ranges that start or end inside one Text node of "
          "length 10..12000 at every offset within 2 of 0, the middle, the end and of 3997..4002 from either end (the 4000-character internal buffers of "
          "DOMRangeImpl::traverseTextNode), expected strings by substring arithmetic.  The space 'known-defect-witnesses' executes the fixed witness history of each KNOWN_DEFECTS entry without guards.",
     trusted_base=["reference DOM L2 Traversal/Range model drv/c14_ref.hpp + drv/c14_apply.hpp (written from the recommendation text restated in DOMRange.hpp, "
@@ -103,8 +108,8 @@ SPEC = dict(
     ],
     coverage=_coverage,
     runs=dict(
-        quick=[_WITNESSES, _LONGTEXT, _explore("one-view-depth3", 1, 3), _explore("traversal-depth6", 1, 6, "traversal")],
-        thorough=[_WITNESSES, _LONGTEXT, _explore("one-view-depth3", 1, 3), _explore("two-views-depth3", 2, 3), _explore("one-view-depth4-medium", 1, 4, "medium"),
+        quick=[_WITNESSES, _LONGTEXT, _IDTABLE4, _explore("one-view-depth3", 1, 3), _explore("traversal-depth6", 1, 6, "traversal")],
+        thorough=[_WITNESSES, _LONGTEXT, _IDTABLE5, _explore("one-view-depth3", 1, 3), _explore("two-views-depth3", 2, 3), _explore("one-view-depth4-medium", 1, 4, "medium"),
                   _explore("traversal-depth8", 1, 8, "traversal")],
     ),
     manifest=dict(
